@@ -60,15 +60,23 @@ theorem getAttr_contract_trump (f : Nat) (c : Contract) :
     ppsimp [Contract.trump, h, encContract, pp_beq_encBid_none, getAttr_suit]
 
 
+/-- the state `__init__` builds for the final bid `b` declared by `d` -/
+def initState (b : Fin 35) (d : Seat) : PState :=
+  { trump := bidDenom b, declarer := d, dummy := d.partner, leader := d.left, active := d.left,
+    trick := [], trickNum := 1, history := [], used := [], takenNS := 0, takenEW := 0 }
+
+theorem init_eq (c : Contract) : PState.init c =
+    match c.finalBid, c.declarer with
+    | some b, some d => some (initState b d)
+    | _, _ => none := rfl
+
 /-- `PlayingPhase.__init__` on a fresh instance of class `k` -/
 theorem init_call (f : Nat) (k : Id) (c : Contract) :
     callF (mkRec P (f+40)) m_PlayingPhase___init__ [.obj k [], encContract c] =
       match c.finalBid, c.declarer with
       | none, _ => .error (.exc K.Exception)
       | some _, none => .error (.exc K.AssertionError)
-      | some b, some d => .ok (.none, ppObj k c
-          { trump := bidDenom b, declarer := d, dummy := d.partner, leader := d.left, active := d.left,
-            trick := [], trickNum := 1, history := [], used := [], takenNS := 0, takenEW := 0 } []) := by
+      | some b, some d => .ok (.none, ppObj k c (initState b d) []) := by
   rw [callF_def]
   simp only [m_PlayingPhase___init__, bindParams, Option.map]
   cases hfb : c.finalBid with
@@ -82,7 +90,7 @@ theorem init_call (f : Nat) (k : Id) (c : Contract) :
     | some d =>
       ppsimp [meth_encContract, mth_is_passed_out, is_passed_out_call, hfb, getAttr_contract_trump, Contract.trump,
         getAttr_contract_declarer, hd, beq_encSuit_none, beq_encSeat_none, getAttr_partner, getAttr_next,
-        construct_history, ↓eval_taken_dict, builtin_tuple_nil, builtin_set_nil, ppObj, baseFields, encCards, encHistory,
+        construct_history, ↓eval_taken_dict, builtin_tuple_nil, builtin_set_nil, ppObj, baseFields, encCards, encHistory, initState,
         List.reverse_nil, List.map_nil]
       rfl
 
